@@ -77,30 +77,45 @@ Proof.
 Qed.
 Print Assumptions C13_support_checker_sound.
 
-(* result file: under EVERY schedule of the lock protocol the rows are exactly the work packages whose
-   release succeeded, each once *)
+(* result file: under EVERY schedule of the lock protocol, for the current code (early = true) and for the code before
+   1d8733c (early = false), the rows are exactly the work packages that ended in DoneOk, each once *)
 Theorem C13_rows_are_released_packages :
-  forall sched,
-  NoDup (file (lrun linit sched)) /\
-  forall t, In t (file (lrun linit sched)) <-> phases (lrun linit sched) t = PDoneOk.
+  forall early sched,
+  NoDup (file (lrun_gen early linit sched)) /\
+  forall t, In t (file (lrun_gen early linit sched)) <-> phases (lrun_gen early linit sched) t = PDoneOk.
 Proof. exact lock_file_sound. Qed.
 Print Assumptions C13_rows_are_released_packages.
 
-(* one row per finished work package, provided the lock gives mutual exclusion and nobody times out *)
+(* current code (row flushed while the lock is believed held): one row per finished work package under EVERY
+   interleaving in which nobody times out - mutual exclusion of the lock is not needed *)
 Theorem C13_row_count_partial :
-  forall sched, mutex_run linit sched ->
+  forall sched, Forall (fun s => snd s = Step) sched ->
   forall t, finished (phases (lrun linit sched) t) = true -> In t (file (lrun linit sched)).
-Proof. exact mutex_no_loss. Qed.
+Proof. exact flush_no_loss. Qed.
 Print Assumptions C13_row_count_partial.
 
-(* the unconditional clause is refuted: an interleaving of two work packages, no time-out, both finish,
-   one row in the file (the same interleaving is forced on the real code by the check) *)
-Theorem C13_row_count_refuted :
-  exists sched, Forall (fun s => snd s = Step) sched /\
-    phases (lrun linit sched) 0 = PDoneLost /\ phases (lrun linit sched) 1 = PDoneOk /\
+(* the unconditional clause stays refuted by the 10 s time-out: the work package finishes, its row is dropped *)
+Theorem C13_row_count_timeout_refuted :
+  exists sched, phases (lrun linit sched) 0 = PDoneLost /\ phases (lrun linit sched) 1 = PDoneOk /\
     file (lrun linit sched) = [1].
-Proof. exact (ex_intro _ double_acquire_schedule lock_loses_row). Qed.
-Print Assumptions C13_row_count_refuted.
+Proof. exact (ex_intro _ timeout_schedule lock_timeout_loses_row). Qed.
+Print Assumptions C13_row_count_timeout_refuted.
+
+(* the code before 1d8733c: an interleaving of two work packages, no time-out, both finish, one row in the file
+   (the same interleaving is forced on the real code by the check; regression seed corpus/C13/lock_double_acquire) *)
+Theorem C13_row_count_pinned_refuted :
+  exists sched, Forall (fun s => snd s = Step) sched /\
+    phases (lrun_pinned linit sched) 0 = PDoneLost /\ phases (lrun_pinned linit sched) 1 = PDoneOk /\
+    file (lrun_pinned linit sched) = [1].
+Proof. exact (ex_intro _ double_acquire_schedule lock_loses_row_pinned). Qed.
+Print Assumptions C13_row_count_pinned_refuted.
+
+(* ... it needed mutual exclusion, which the lock protocol does not give *)
+Theorem C13_row_count_pinned_partial :
+  forall sched, mutex_run_pinned linit sched ->
+  forall t, finished (phases (lrun_pinned linit sched) t) = true -> In t (file (lrun_pinned linit sched)).
+Proof. exact (mutex_no_loss false). Qed.
+Print Assumptions C13_row_count_pinned_partial.
 
 (* non-vacuity *)
 Example C13_example_fresh :   (* 3 workers, 5 tasks, 2 draws each, injective seeds: ten different raw draws *)
@@ -115,13 +130,17 @@ Example C13_example_forkcopy :   (* same schedule, forked copies: tasks 0,1,2 co
 Proof. split; vm_compute; reflexivity. Qed.
 
 Example C13_example_mutex :   (* a schedule with polling that satisfies the mutual-exclusion hypothesis *)
-  mutex_run linit [(0, Step); (0, Step); (1, Step); (0, Step); (1, Step); (0, Step); (1, Step); (1, Step); (1, Step); (1, Step)]
-  /\ file (lrun linit [(0, Step); (0, Step); (1, Step); (0, Step); (1, Step); (0, Step); (1, Step); (1, Step); (1, Step); (1, Step)]) = [0; 1].
+  mutex_run_pinned linit [(0, Step); (0, Step); (1, Step); (0, Step); (1, Step); (0, Step); (1, Step); (1, Step); (1, Step); (1, Step)]
+  /\ file (lrun_pinned linit [(0, Step); (0, Step); (1, Step); (0, Step); (1, Step); (0, Step); (1, Step); (1, Step); (1, Step); (1, Step)]) = [0; 1].
 Proof.
   split; [|vm_compute; reflexivity].
   cbn. repeat split; try reflexivity;
     intros t u; destruct t as [|[|t]]; destruct u as [|[|u]]; cbn; intros; congruence.
 Qed.
+
+Example C13_example_flush :   (* the double acquisition, current code: no time-out, both rows *)
+  Forall (fun s => snd s = Step) double_acquire_schedule /\ file (lrun linit double_acquire_schedule) = [0; 1].
+Proof. split; [repeat constructor | reflexivity]. Qed.
 
 Example C13_example_triangular_hyps :   (* the hypotheses on sqrt are satisfiable on the points used: identity on {0,1} *)
   (triangular_t (fun x => x) 0 1 1 1 == 1)%Q.
